@@ -27,6 +27,7 @@ def run(ctx):
     targets(ctx)
     stamp(ctx)
     persist(ctx)
+    member(ctx)
 
 
 def _is_agent_cluster(orgs):
@@ -373,3 +374,11 @@ def persist(ctx):
             R.require(all(txroot(e) == txroot(commits[0]) and txroot(e) for e in execs), "same-tx@%s" % F.root_fn(b).id, execs[0].where(),
                       "write and commit use the same transaction value",
                       fail_msg="the __corro_state write is not on the committed transaction")
+
+
+def member(ctx):
+    """Every cluster filter on the sending side (sync partner choice, broadcast targets, ring0) reads `MemberState.cluster_id`.
+    The filters are only as good as that field: it must be replaced whenever a newer identity of a member is accepted (this is
+    what a peer's `cluster set-id` produces), otherwise the node keeps treating the moved member as its own cluster."""
+    from . import C18
+    C18.add(ctx, rule_id="C16.member", desc="the cluster id stored for a member (read by all sender-side cluster filters) is replaced, from the announcing identity, on every accepted identity update")
